@@ -186,6 +186,8 @@ type Sim struct {
 	Probes     map[string]int
 
 	callerDone  bool
+	callers     int
+	callersDone int
 	callerPanic interface{}
 	callerStack string
 	calls       int
@@ -412,7 +414,7 @@ func (s *Sim) noteIO(kind byte, op string, a, b int) (after bool) {
 
 // Run executes body as the caller task under the scheduler. It must be called
 // from inside a synctest bubble (see RunInBubble).
-func (s *Sim) run(body func()) {
+func (s *Sim) run(bodies []func()) {
 	parser.VerifHook = func(p int, l interface{}) int { return s.hook('p', p, l) }
 	interp.VerifHook = func(p int, l interface{}) int { return s.hook('i', p, l) }
 	defer func() {
@@ -420,32 +422,38 @@ func (s *Sim) run(body func()) {
 		interp.VerifHook = nil
 	}()
 
-	caller := &Task{ID: 0, Pkg: 'h', release: make(chan int), OwnLex: -1, Root: -1}
-	s.byID = append(s.byID, caller)
-	started := make(chan struct{})
-	go func() {
-		s.mu.Lock()
-		caller.goid = goid()
-		s.tasks[caller.goid] = caller
-		s.mu.Unlock()
-		close(started)
-		defer func() {
-			if e := recover(); e != nil {
-				s.mu.Lock()
-				s.callerPanic = e
-				buf := make([]byte, 4096)
-				s.callerStack = string(buf[:runtime.Stack(buf, false)])
-				s.mu.Unlock()
-			}
+	// one caller task per body (ids 0..k-1); several bodies model independent callers that use the
+	// library at the same time (their calls share nothing but package-level state, if there is any)
+	s.callers = len(bodies)
+	for bi, body := range bodies {
+		caller := &Task{ID: bi, Pkg: 'h', release: make(chan int), OwnLex: -1, Root: -1}
+		s.byID = append(s.byID, caller)
+		started := make(chan struct{})
+		go func() {
 			s.mu.Lock()
-			s.callerDone = true
-			caller.exited = true
+			caller.goid = goid()
+			s.tasks[caller.goid] = caller
 			s.mu.Unlock()
+			close(started)
+			defer func() {
+				if e := recover(); e != nil {
+					s.mu.Lock()
+					s.callerPanic = e
+					buf := make([]byte, 4096)
+					s.callerStack = string(buf[:runtime.Stack(buf, false)])
+					s.mu.Unlock()
+				}
+				s.mu.Lock()
+				s.callersDone++
+				s.callerDone = s.callersDone == s.callers
+				caller.exited = true
+				s.mu.Unlock()
+			}()
+			s.Yield(PCallerStart)
+			body()
 		}()
-		s.Yield(PCallerStart)
-		body()
-	}()
-	<-started
+		<-started
+	}
 
 	for {
 		synctest.Wait()
@@ -630,7 +638,7 @@ type Result struct {
 }
 
 // RunInBubble runs body under a fresh simulator inside a synctest bubble.
-func RunInBubble(t *testing.T, s *Sim, body func()) (res Result) {
+func RunInBubble(t *testing.T, s *Sim, bodies ...func()) (res Result) {
 	func() {
 		defer func() {
 			if e := recover(); e != nil {
@@ -638,7 +646,7 @@ func RunInBubble(t *testing.T, s *Sim, body func()) (res Result) {
 			}
 		}()
 		synctest.Test(t, func(t *testing.T) {
-			s.run(body)
+			s.run(bodies)
 		})
 	}()
 	res.Violations = s.Violations
